@@ -338,6 +338,7 @@ def run(P, rep, tier):
     r1321(W, engs, rep)
     r1322(P, W, rep)
     r1323(P, rep, tier)
+    r1324(P, rep)
     for rule, fam in (('R13.13', LD.r1313_function), ('R13.14', LD.r1314_declspec), ('R13.15', LD.r1315_typing), ('R13.16', LD.r1316_constexpr)):
         try:
             fam(P, rep, rule)
@@ -1195,6 +1196,33 @@ def r136(W, engs, rep):
                 rep.ob('R13.6', key, v != 0, '%s() ends in exit(0): the compiler reports success after a diagnostic' % f, where=where)
         else:
             rep.ob('R13.6', key, True, '', where=where)
+
+
+# --------------------------------------------------------------------------------------------
+def r1324(P, rep):
+    """a located diagnostic names the file the token is in: tokens that are made after tokenizing (converted string literals, number / string tokens of builtin
+    macros, results of # and ##) are created while `current_file` is whatever file was tokenized last; error_tok()/warn_tok() print tok->file->name with tok->line_no,
+    so a token that keeps the creator's stamp is reported in another file, at a line that need not exist there.  The obligations are C18's (R18.5)."""
+    rep.rule('R13.24', 'the file and line a located diagnostic prints are those of the reported token: every function that makes a token from a template token after '
+                       'tokenizing (converted string literals, tokens of builtin macros, # and ##) hands on the template\'s file identity and line, not the stamp of the '
+                       'file that happened to be tokenized last (obligations of C18 R18.5, re-issued)', floor=8)
+    from ..report import Report, reissue
+    from ..interp import Unsupported
+    sub = Report('C18')
+    try:
+        from .. import lib_c18b
+        if hasattr(lib_c18b, 'r185'):
+            lib_c18b.r185(P, sub)
+        else:
+            from . import c18
+            c18.run(P, sub, 'quick')
+    except (AnalysisBroken, Unsupported, ImportError) as e:
+        rep.undecided('R13.24', 'tokenize.c:synthesised-tokens:engine', 'the functions that make tokens from a template cannot be interpreted: %s' % e)
+        return
+    why = ('error_tok()/warn_tok() print tok->file->name and tok->line_no of the token they are given: a diagnostic at this token names a file the construct is not in '
+           '(and a line that need not exist in that file), so the input is not answered with a located diagnostic: ')
+    n = reissue(rep, 'R13.24', sub, why, keep=lambda o: o['key'].split(':', 1)[0] == 'R18.5')
+    rep.extra['R13.24'] = {'obligations_of_C18_reissued': n}
 
 
 # --------------------------------------------------------------------------------------------
